@@ -38,6 +38,7 @@ EXHAUSTIVE_NOTE = ("all off-diagonal sparsity patterns of n x n matrices with no
                    "quick tier, n=4 (4096 patterns) in the thorough tier; each with 12 scripted histories (modes N/T/H, "
                    "vector/block, unit-vector / repeated / combined / zero / complex rhs, x0, updates); values strictly "
                    "diagonally dominant, inner solver DenseLU / DenseQR / SparseLU(csc|csr)")
+FUZZ = {"quick": 0, "thorough": 3000, "instrument": "pymoto.solvers.auto_determine"}
 ASSUMPTIONS = [
     "all matrices of one wrapper life belong to one symmetry class (a later matrix may be more special, never less); "
     "user hints, when given, are true",
